@@ -164,3 +164,84 @@ func VH_C08_sort(vm *VM, inst int) {
 	}
 	reach("c08/sort", true)
 }
+
+// ---- standard order does not depend on how a list was built ----
+
+var c08Lists = [][]string{{"a", "z"}, {"a", "b", "c"}, {"a", "b"}, {"a", "b", "z"}, {"a", "b", "c", "d"}, {"a"}}
+
+func c08ListText(xs []string) string {
+	s := "["
+	for i, x := range xs {
+		if i > 0 {
+			s += ", "
+		}
+		s += x
+	}
+	return s + "]"
+}
+
+// c08Build returns a goal that binds variable v to the list xs, built in the representation chosen by case split:
+// literal; append(Prefix, Suffix, V) at every split point; V = [Prefix|T], T = Suffix at every split point;
+// atom_chars for the all-letters lists; a cons chain with './2.
+func c08Build(v string, xs []string, tag string) string {
+	kinds := 1 + 2*(len(xs)-1) + 2
+	k := choice("rep"+tag, kinds)
+	switch {
+	case k == 0:
+		return v + " = " + c08ListText(xs)
+	case k == kinds-1:
+		s := "[]"
+		for i := len(xs) - 1; i >= 0; i-- {
+			s = "'.'(" + xs[i] + ", " + s + ")"
+		}
+		return v + " = " + s
+	case k == kinds-2:
+		a := ""
+		for _, x := range xs {
+			a += x
+		}
+		return "atom_chars(" + a + ", " + v + ")"
+	}
+	k--
+	split := 1 + k/2
+	pre, suf := c08ListText(xs[:split]), c08ListText(xs[split:])
+	if k%2 == 0 {
+		return "append(" + pre + ", " + suf + ", " + v + ")"
+	}
+	p := pre[:len(pre)-1]
+	return v + " = " + p + "|T" + tag + "], T" + tag + " = " + suf
+}
+
+// VH_C08_rep: inst = i*N + j: lists i and j, each in a representation chosen by case split; compare/3, ==, @< and
+// sort/2 must answer as for the literal lists.
+func VH_C08_rep(vm *VM, inst int) {
+	n := len(c08Lists)
+	xs, ys := c08Lists[inst/n], c08Lists[inst%n]
+	lx, _, err1 := vParseQuery(vm, "p("+c08ListText(xs)+").")
+	ly, _, err2 := vParseQuery(vm, "p("+c08ListText(ys)+").")
+	verify(err1 == nil && err2 == nil, "harness: literal lists do not parse")
+	want := rCompare(lx.(Compound).Arg(0), ly.(Compound).Arg(0), nil)
+	sym := map[int]string{-1: "<", 0: "=", 1: ">"}[want]
+	goal := c08Build("X", xs, "x") + ", " + c08Build("Y", ys, "y") + ", compare(O, X, Y), sort([X, Y], S), length(S, N)."
+	note("goal", goal)
+	q, pv, err := vParseQuery(vm, goal)
+	verify(err == nil, "harness: goal does not parse: "+goal)
+	var o, nn Variable
+	for _, v := range pv {
+		switch v.Name.String() {
+		case "O":
+			o = v.Variable
+		case "N":
+			nn = v.Variable
+		}
+	}
+	r := vRunImpl(vm, q, []Variable{o, nn}, 1, nil)
+	verify(r.status == "stopped", "building and comparing the lists failed or raised an error")
+	verify(r.answers[0][0] == Term(NewAtom(sym)), "compare/3 depends on how the lists were built (the literal lists compare "+sym+")")
+	wantN := 2
+	if want == 0 {
+		wantN = 1
+	}
+	verify(r.answers[0][1] == Term(Integer(wantN)), "sort/2 keeps or drops an element depending on how the lists were built")
+	reach("c08/rep", true)
+}
